@@ -587,6 +587,57 @@ def provenance(f, e, ptr_field):
     return None
 
 
+def abs_reader(ctx, prog, f, k, orders):
+    """read2/4/8 decided by abstract interpretation of the whole body (absim): the k buffered bytes are symbolic, the byte-order
+    member is bound to each enumerator in turn; the value stored through the reference parameter must carry, bit for bit, byte i
+    of the buffer at shift 8*(k-1-i) (big-endian) or 8*i (little-endian / native on this host), and the cursor must have
+    advanced by exactly k.  -> True when every byte order was decided (verdicts recorded)"""
+    import absim, scansim
+    inst = f['q'].split('::')[-1]
+    verdicts = []
+    for name, val, big_endian in orders:
+        sources = [absim.Source('b%d' % i, 8, 0, 255) for i in range(k)]
+
+        def run_fn(values, val=val):
+            bufs = {'IN': list(values) + [0] * 8, 'X': [0]}
+            r = scansim.Run(prog, f, bufs, mems={'_ptr': ('P', 'IN', 0), '_end': ('P', 'IN', k), '_endian': val}, methods={'*': 'interp'})
+            r.transparent = ('asl::AsOther',)
+            r.boxed[f['params'][0]['id']] = 'X'
+            r.run()
+            p_ = r.mems.get('_ptr')
+            return [bufs['X'][0], p_[2] if isinstance(p_, tuple) else -1]
+
+        def ref_fn(values, big_endian=big_endian):
+            v = 0
+            for i, b in enumerate(values):
+                v = v | (b << (8 * (k - 1 - i) if big_endian else 8 * i))
+            return [v, k]
+        leaves, bad, und = absim.explore(sources, run_fn, ref_fn, absim.eq_out(8 * k), max_leaves=16)
+        ctx.evaluations += len(leaves) + len(und)
+        if und:
+            return False
+        v = None
+        for assign, values, got, want in bad:
+            w = absim.confirm(sources, assign, run_fn, ref_fn, 8 * k)
+            if w is None:
+                return False
+            v = w
+            break
+        verdicts.append((name, v))
+    for name, v in verdicts:
+        role = inst + ':%s table' % name
+        if v is None:
+            ctx.ok('C16.reader', f['pq'], role, fwhere(f), 'abstract interpretation: byte i of the buffer lands at shift %s, cursor +%d' % ('8*(%d-i)' % (k - 1) if name.startswith('big') else '8*i', k))
+        else:
+            vals, got, want = v
+            if got[1] != want[1]:
+                ctx.violation('C16.reader', f['pq'], inst + ':advance', fwhere(f), 'with byte order %s the cursor advances by %s bytes, not by exactly %d' % (name, got[1], k))
+            else:
+                ctx.violation('C16.reader', f['pq'], role, fwhere(f), 'with byte order %s the buffered bytes %s are read as 0x%x, expected 0x%x' % (
+                    name, absim.hexs(vals, 8), got[0] & ((1 << (8 * k)) - 1) if isinstance(got[0], int) else 0, want[0]))
+    return True
+
+
 def check_reader(ctx, prog, other_val):
     cls = 'asl::StreamBufferReader'
     big = q.enum_value(prog, 'asl::Endian', 'ENDIAN_BIG')
@@ -601,6 +652,17 @@ def check_reader(ctx, prog, other_val):
             # lands at which shift (byteprov: byte-provenance domain, control resolved with the byte-order member bound)
             import byteprov
             little, native = q.enum_value(prog, 'asl::Endian', 'ENDIAN_LITTLE'), q.enum_value(prog, 'asl::Endian', 'ENDIAN_NATIVE')
+            decided = False
+            try:
+                decided = abs_reader(ctx, prog, f, k, (('big-endian', big, True), ('little-endian', little, False), ('native (little-endian host)', native, False)))
+            except Exception as ex_:
+                ctx.info.setdefault('reader_interpretation_fallback', []).append('%s: %s: %s' % (f['q'], type(ex_).__name__, ex_))
+                decided = False
+            if decided:
+                pt = T(f, T(f, f['params'][0]['t']).get('to'))
+                ctx.check(pt.get('sz') == k, 'C16.reader', f['pq'], inst + ':target width', fwhere(f), '%s has %d bytes' % (pt.get('s'), k),
+                          'read%d used for %s of %s bytes' % (k, pt.get('s'), pt.get('sz')))
+                continue
             convs = [v for s_ in ir.walk_stmts(f['body']) if s_.get('k') == 'decl' for v in s_['vars'] if 'AsOther' in (T(f, v['t']).get('rec') or '') and strip(v.get('init') or {}).get('k') == 'construct' and len(strip(v['init'])['a']) == 1]
             if len(convs) != 1:
                 ctx.undecided('C16.reader', f['pq'], inst + ':shape', fwhere(f), 'no single AsOther<> conversion of the assembled value')
